@@ -165,4 +165,20 @@ PROPERTIES = {
         'trusted_base': ['representation invariant wf over-approximates reachable values'],
         'assumptions': ['searched settings given as AnsiSetting objects (other spellings: C14)'],
     },
+    'C12': {
+        'groups': ['W1', 'W2', 'W3', 'V3', 'Z2'],
+        'level': 'other',
+        'explanation': 'ljust/rjust/center/zfill on bounded-symbolic tables (width, fill character, extend flag, keys and text length '
+                       'symbolic): the text is what format() produces (extra fill on the right for center), original characters keep '
+                       'their settings at the shifted position, fill characters (Skolemised over all positions) take the settings of '
+                       'the adjacent original character when formatting is extended and none otherwise, the invariant is kept (closing '
+                       'point at the new end), ValueError for a fill that is not one character.  to_str(format_spec) for every '
+                       'string-format part of length <=3/4 over the characters space x : + - < > ^ 2 7 (symbolic; the constant '
+                       'regular expressions of the source are run by a matcher built from re._parser and cross-checked against re) '
+                       'followed by no / an empty / a code / a name ansi part: equals doing the padding and apply_formatting on a '
+                       'copy, ValueError exactly outside the grammar (or for an invalid ansi part), receiver untouched.',
+        'trusted_base': ['regex matcher pyvc/regex_model.py (cross-checked against re on 44k pattern/string pairs)',
+                         'format-spec grammar oracle parse_string_format in contracts/clauses_pad.py, written from the documentation'],
+        'assumptions': ['the split of a format spec at the colon follows the documented pattern .?[+-]?[<>^]?[0-9]*'],
+    },
 }
